@@ -530,6 +530,7 @@ def _some_mark_named(nm):
     return f"any(any({_at('a2', 'b2')}.isMark and {_at('a2', 'b2')}.name == {nm} for b2 in range(len({AL}[{KEYS}[a2]]))) for a2 in range(len({KEYS})))"
 
 
+_UPD = "markAnchorNames.update((a.name for a in anchors if a.isMark))"
 contract(
     W + "MarkFeatureWriter._getAnchorPairs",
     props=["C06"],
@@ -549,11 +550,19 @@ contract(
         f" {_at('a', 'b')}.name in result and result[{_at('a', 'b')}.name] == '_' + {_at('a', 'b')}.key) for b in range(len({AL}[{KEYS}[a]]))) for a in range(len({KEYS})))",
     },
     canaries={"empty": "len(result) == 0"},
-    locals={"markAnchorNames": Set(STR), "anchorPairs": Dict(STR, STR)},
-    ghost_vars={"wa": (Dict(STR, INT), "{}"), "wb": (Dict(STR, INT), "{}")},
-    ghost={"anchorPairs[anchor.name] = markAnchorName": ["wa = {**wa, anchor.name: i2}", "wb = {**wb, anchor.name: j}"]},
+    locals={"markAnchorNames": Set(STR), "anchorPairs": Dict(STR, STR), "m0": Set(STR), "mprev": Set(STR)},
+    # m0 / mprev: ghost snapshots of markAnchorNames (m0 == the set at every loop head, mprev == the set before the update of this iteration)
+    ghost_vars={"wa": (Dict(STR, INT), "{}"), "wb": (Dict(STR, INT), "{}"), "m0": (Set(STR), "set()"), "mprev": (Set(STR), "set()")},
+    ghost={"anchorPairs[anchor.name] = markAnchorName": ["wa = {**wa, anchor.name: i2}", "wb = {**wb, anchor.name: j}"],
+           _UPD: ["mprev = m0", "m0 = markAnchorNames"]},
+    # the effect of the one `update` statement, as three small facts (proved there, then used by the invariants)
+    hints={_UPD: [
+        "all(n in markAnchorNames for n in mprev)",
+        "all(implies(anchors[b].isMark, anchors[b].name in markAnchorNames) for b in range(len(anchors)))",
+        "all(n in mprev or any(anchors[b].isMark and anchors[b].name == n for b in range(len(anchors))) for n in markAnchorNames)",
+    ]},
     loops={
-        "for anchors in self.context.anchorLists.values()#1": Loop(index="i1", invariants={"m-complete": _m_complete("i1"), "m-sound": _m_sound("i1")}),
+        "for anchors in self.context.anchorLists.values()#1": Loop(index="i1", invariants={"snapshot": "m0 == markAnchorNames", "m-complete": _m_complete("i1"), "m-sound": _m_sound("i1")}),
         "for anchors in self.context.anchorLists.values()#2": Loop(index="i2", invariants={
             "in-marks": "all(anchorPairs[k] in markAnchorNames for k in anchorPairs)",
             "wit": _p_wit("wa[k] < i2"),
